@@ -238,6 +238,11 @@ def run(ctx):
     ctx.suites['option_level_lattice'] = {'solves': nsolves, 'failure': why}
     if why:
         ctx.problem('oracle', 'property fails on the implementation: ' + why, inputs={'suite': 'option_level_lattice'}, failing_input_found=True)
+    why = oracle_scripted_outcomes(ctx.rng)
+    ctx.evaluations += 8
+    ctx.suites['scripted_solver_outcomes'] = {'cases': 8, 'failure': why}
+    if why:
+        ctx.problem('oracle', 'property fails on the implementation: ' + why, inputs={'suite': 'scripted_solver_outcomes'}, failing_input_found=True)
     why = oracle_conditional_levels(ctx.rng)
     ctx.evaluations += 4
     ctx.count('oracle', 'conditional_levels')
@@ -353,6 +358,40 @@ def oracle_bounds(rng, n, fo, go, ho, p, q):
     # slack variables only relax the dual by a bounded amount that the solver drives to zero: same value (same solver, same tolerance)
     if dv[0] == 'solved' and ds[0] == 'solved' and math.isfinite(dv[1]) and math.isfinite(ds[1]) and ds[1] > dv[1] + 1e-3 * (1 + abs(dv[1])):
         return 'dual value with slacks=True (%r) exceeds the dual value with slacks=False (%r) %s' % (ds[1], dv[1], opts)
+    return None
+
+
+def oracle_scripted_outcomes(rng):
+    """what the relaxation reports when the solver says its conic program is (likely) infeasible or (likely) unbounded, for the outcomes that are
+    consistent with a feasible constrained problem: the primal form (a maximisation) found infeasible, and the dual form (a minimisation) found
+    unbounded, both mean 'no certificate': the reported bound is -inf, never +inf, whether the solver is sure (flags 1, 2) or not (11, 12).
+    The real ECOS.apply / parse_result and Problem.solve run; only the numerical solve is scripted."""
+    import sageopt as so
+    from sageopt.relaxations import sage_sigs as ss
+    from sageopt.coniclifts.problems.problem import Problem
+    from harness.props.c09 import Stub
+    y = so.standard_sig_monomials(2)
+    f = y[0] ** 2 + y[1] ** 2 - y[0] * y[1] + y[0] ** -1
+    g = [4 - y[0] - y[1]]
+    saved = Problem._SOLVERS_['ECOS']
+    try:
+        with warnings.catch_warnings():
+            warnings.simplefilter('ignore')
+            for form, flags in (('primal', (1, 11)), ('dual', (2, 12))):
+                for p_, ell_ in ((0, 0), (1, 0)):
+                    prob = ss.sig_constrained_relaxation(f, g, [], form=form, p=p_, q=1, ell=ell_)
+                    n_ = prob.A.shape[1]
+                    for flag in flags:
+                        Problem._SOLVERS_['ECOS'] = Stub
+                        Stub.answer = (flag, [0.0] * n_, float(rng.choice([0.0, 1.5, -2.0])))
+                        st, val = prob.solve(solver='ECOS', verbose=False)
+                        Problem._SOLVERS_['ECOS'] = saved
+                        if not (val == -math.inf):
+                            return ('the %s form of a constrained relaxation (p=%d) whose conic program the solver reports as %s (ECOS exit flag %d) '
+                                    'reports (%s, %r); without a certificate the bound is -inf (the problem is feasible: f(1, 1) = %g)'
+                                    % (form, p_, 'infeasible' if form == 'primal' else 'unbounded', flag, st, val, float(f(np.zeros(2)))))
+    finally:
+        Problem._SOLVERS_['ECOS'] = saved
     return None
 
 
